@@ -1,46 +1,6 @@
 // kani-module: felt252_vec_compression::harness
-// C14: `decompress` is total on arbitrary input.
-
-fn felt(x: u64) -> BigUintAsHex {
-    BigUintAsHex { value: BigUint::from(x) }
-}
-
-/// Model of `words_per_felt` (a BigUint loop that CBMC cannot run): any value in 1..=5. The real
-/// function returns floor(log(P)/log(size)) in 3..=31 for a power of two in [2^8, 2^63]; values
-/// above 5 only repeat the same inner-loop step more often and are OUTSIDE this harness (stated
-/// bound). The rest of `decompress` is real.
-fn model_words_per_felt(_padded_code_size: usize) -> usize {
-    let w: usize = kani::any();
-    kani::assume(w >= 1 && w <= 5);
-    w
-}
-
-/// Arbitrary header (code_size, padding_size, count: any u64-sized felts), code book of <= 2
-/// entries, <= 2 packed values with arbitrary 64-bit content.
-#[kani::proof]
-#[kani::unwind(7)]
-#[kani::stub(words_per_felt, model_words_per_felt)]
-fn c14_decompress_total_len5() {
-    let v = vec![felt(kani::any()), felt(kani::any()), felt(kani::any()), felt(kani::any()),
-                 felt(kani::any())];
-    let r = decompress(&v);
-    if let Some(r) = &r {
-        kani::cover!(r.len() == 1, "a successful decompression is reachable");
-    }
-    std::mem::forget(r);
-    std::mem::forget(v);
-}
-
-/// Short inputs (0..=3 felts) never panic either.
-#[kani::proof]
-#[kani::unwind(7)]
-#[kani::stub(words_per_felt, model_words_per_felt)]
-fn c14_decompress_total_short() {
-    let n: usize = kani::any();
-    kani::assume(n <= 3);
-    let v = vec![felt(kani::any()), felt(kani::any()), felt(kani::any())];
-    let r = decompress(&v[..n]);
-    kani::cover!(r.is_none(), "rejection reachable");
-    std::mem::forget(r);
-    std::mem::forget(v);
-}
+// C14: harnesses for `decompress` on arbitrary input were attempted (header of three arbitrary
+// u64-sized felts, <= 2 code words, <= 2 packed values, `words_per_felt` replaced by a model
+// returning 1..=5) and dropped: CBMC exceeds 13 GB on the symbolic-capacity result vector
+// (`Vec::with_capacity(remaining_unpacked_size)` followed by pushes). `decompress` is therefore
+// NOT covered by the C14 claim; see DESIGN.md.
